@@ -470,6 +470,14 @@ func (r *reporter) summaryVec(
 	defer r.Unlock()
 
 	if s, ok := r.timers[id]; ok {
+		if s.summary == nil {
+			// n.b. The name is taken by a histogram; hand back an error rather
+			//      than the empty summary slot.
+			return nil, errors.Errorf(
+				"metric %q is already registered as a histogram, cannot register it as a summary",
+				name,
+			)
+		}
 		return s.summary, nil
 	}
 
@@ -502,6 +510,14 @@ func (r *reporter) histogramVec(
 	defer r.Unlock()
 
 	if h, ok := r.timers[id]; ok {
+		if h.histogram == nil {
+			// n.b. The name is taken by a summary; hand back an error rather
+			//      than the empty histogram slot.
+			return nil, errors.Errorf(
+				"metric %q is already registered as a summary, cannot register it as a histogram",
+				name,
+			)
+		}
 		return h.histogram, nil
 	}
 
